@@ -19,7 +19,15 @@ RULE = ("tie P (program capture): for every graph x flag-form case the program r
         "pattern fixed vs the independent union-find oracle graphcap.edges_form_forest, for every pattern of every "
         "small multigraph and for tree-biased patterns of random larger ones; the Coq specification (forest_b, "
         "uf_forest) is validated against the same oracle; z3 models are re-checked by the Coq certificate checker and "
-        "the Coq rank construction is replayed on the real program.")
+        "the Coq rank construction is replayed on the real program.  "
+        "Hardened input classes (tie and search): graph forms (edges stored (larger, smaller), shuffled order, cycles stored "
+        "head-to-tail, parallel bundles) and structured instances with 6-10 vertices (two disjoint cycles, K5/K6/K33, wheels, "
+        "prisms, Petersen, long paths / cycles, 7-vertex graphs with n+3..n+6 edges; graphforms.py) with forest-biased and "
+        "cycle-targeted edge subsets; flags as Python True/False spelling out a targeted subset (a forest plus one edge) mixed "
+        "with expressions; tuple / BoolArray1D containers of every flag form, all arguments by keyword; one-shot iterables "
+        "(generator, iter, map, reversed, zip) -- refused with TypeError or the program of the materialised list; histories: "
+        "two calls on one Solver with the same Graph object and flag list, the Graph extended by the caller in between, "
+        "flag list and Graph unchanged after every call.")
 TRUSTED = [
     "reading of the property: 'contain no cycle' = every active edge is a bridge of the active-edge subgraph "
     "(Graph/Acyclic.v::forest); validated on every run against a union-find oracle written independently in Python "
